@@ -232,7 +232,7 @@ def run(ctx):
             ctx.fail("cg_matrix", cid, "get_cg_matrix differs from the exact radical model (%s)" % res[cid], inp=m, site="HelicityDecay.get_cg_matrix", fingerprint="cgm",
                      failing_input={k: str(v) for k, v in m.items()})
     return common.finish(ctx, search=search, technique=TECHNIQUE,
-                         extra_assumptions=["rank of the LS->helicity map: see evidence of C12 (CG model) - not claimed here beyond the count theorem"])
+                         extra_assumptions=["full rank of the LS->helicity map: theorem for j<=5/2 (C13_ls_map_full_rank_le5, on the exact-radical matrix whose entries are tied to get_cg_matrix exactly); for the implementation the rank is additionally computed numerically (spins <= 5/2)"])
 
 
 def replay(rep):
